@@ -70,6 +70,8 @@ func expandToken(tx plugintypes.TransactionState, token macroToken) string {
 		return token.text
 	}
 	switch col := tx.Collection(token.variable).(type) {
+	case nil:
+		// the variable has no collection in this transaction (e.g. JSON): same as a missing key
 	case collection.Keyed:
 		if c := col.Get(token.key); len(c) > 0 {
 			return c[0]
